@@ -294,10 +294,16 @@ where
     L: Flat + Length,
 {
     unsafe fn validate_unchecked(bytes: &[u8]) -> Result<(), Error> {
-        for item_bytes in DataIter::<'_, T, L, _>::new(bytes) {
-            T::validate(item_bytes?)?;
+        // Validate exactly the bytes the reference returned by `ptr_from_bytes` covers.
+        let data = unsafe { bytes.get_unchecked(..floor_mul(bytes.len(), Self::ALIGN)) };
+        let mut iter = DataIter::<'_, T, L, _>::new(data);
+        loop {
+            let pos = iter.pos;
+            match iter.next() {
+                Some(item_bytes) => T::validate(item_bytes?).map_err(|e| e.offset(pos + Self::OFFSET_SIZE))?,
+                None => break Ok(()),
+            }
         }
-        Ok(())
     }
 }
 
